@@ -11,8 +11,11 @@ def check(run):
     # hdr.* : version syntax and numeric tuple
     verify.verify(run, c.E, c.contracts["prop:common.Header.version_tuple"])
     for k in ("de:common.Header", "de:treeinfo.Header"):
-        if k in c.contracts:
-            verify.verify(run, c.E, c.contracts[k])
+        verify.verify(run, c.E, c.contracts[k])
+    # the reader contracts below use `X.validate() returns iff valid_X` at their call sites; the two validators every load goes
+    # through (header, and the image record of the largest payload) are re-proved here, the rest in C06
+    for k in ("valid:common.Header", "valid:treeinfo.Header", "valid:images.Image"):
+        verify.verify(run, c.E, c.contracts[k])
     # de.valid.X / de.required.X : a reader returns normally only with the required keys and a valid object
     for k in sorted(c.contracts):
         if k.startswith("de:") and "Header" not in k:
@@ -28,5 +31,7 @@ def check(run):
             corrupt.load_violation(run, kind, fails[0])
     run.note("readers that coerce (int(), bool(), .lower(), `or None`) make some out-of-domain document values in-domain; the oracle is "
              "about the returned object (second sentence of the statement), so these are not violations")
-    run.note("proved: header version handling and the flat section readers; nested containers are exercised by the bounded "
-             "one-corruption enumeration only")
+    run.note("proved: header version handling, the flat section readers, the image record reader (each of its 15 fields corrupted or "
+             "deleted, one at a time) and the composeinfo variant record reader incl. the release embedded in a layered-product variant "
+             "(each field corrupted); treeinfo sections, discinfo and whole-document loads are exercised by the bounded one-corruption "
+             "enumeration")
